@@ -10,8 +10,18 @@ def findings():
     n_fixed = sum(1 for f in kf if f["status"] == "fixed"); n_open = sum(1 for f in kf if f["status"] == "open")
     return "%d defects repaired by `fix:` commits in /repo, %d recorded as open findings.\n\n" % (n_fixed, n_open) + "\n".join(out)
 def seeded():
-    out = ["| change | property | what it breaks (author's words, shortened) | suite | demo with / without | `./check` result on it |", "|---|---|---|---|---|---|"]
-    for d in sorted(glob.glob(os.path.join(V, "seeded", "*"))):
+    out = ["| change | property | what it breaks (author's words, shortened) | suite | demo with / without | `./check` when recorded (seeds 1; 2) | final self-test |", "|---|---|---|---|---|---|---|"]
+    st = {}
+    try:
+        for l in open(os.path.join(V, "seeded", "SELFTEST.md")):
+            f = [x.strip() for x in l.strip().strip("|").split("|")]
+            if len(f) >= 3 and re.match(r"C\d\d-\d+$", f[0]):
+                st[f[0]] = f[2]
+    except Exception:
+        pass
+    for d in sorted(glob.glob(os.path.join(V, "seeded", "C*-*"))):
+        if not os.path.isdir(d):
+            continue
         name = os.path.basename(d)
         try: m = json.load(open(os.path.join(d, "meta.json")))
         except Exception: m = {}
@@ -25,7 +35,7 @@ def seeded():
             t = mm.group(1).strip() if mm else "?"
             det.append("not detected" if "NOT DETECTED" in t else ("no-failing-input" if "no-failing-input-found" in t else ("failing input" if ("VIOLATION" in t or "failing input" in t or t.startswith("#")) else t[:30])))
         what = (m.get("what_it_breaks") or m.get("breaks") or "")[:260].replace("|", "/").replace("\n", " ")
-        out.append("| %s | %s | %s | %s | %s / %s | %s |" % (name, m.get("property", name[:3]), what, v.get("suite", "?"), v.get("demo_with_mutant", "?"), v.get("demo_without_mutant", "?"), "; ".join(det)))
+        out.append("| %s | %s | %s | %s | %s / %s | %s | %s |" % (name, m.get("property", name[:3]), what, v.get("suite", "?"), v.get("demo_with_mutant", "?"), v.get("demo_without_mutant", "?"), "; ".join(det), st.get(name, "")))
     return "\n".join(out)
 p = os.path.join(V, "DESIGN.md"); s = open(p).read()
 for tag, gen in (("findings", findings), ("seeded", seeded)):
